@@ -59,3 +59,32 @@ Example C10_horizon_example :
   (let '(t, w) := horizon exF 1 (99 # 100) 3 in Qred t = 16 /\ w = true).
 Proof. exact ex_horizon. Qed.
 Print Assumptions C10_horizon_example.
+
+(* ---- the SOURCE of PhaseTypeDistribution.moment (translated on every run by translate/moments2coq.py into gen/MomentsGen.v):
+   a moment with an end time IS the accumulation at that time, a moment over a window is the difference of two accumulations
+   of one call, and the default window is that of the tree-height distribution ---- *)
+From Coq Require Import Reals.
+From PG Require Import base.Ops base.OpsR model.CoalModels model.Matrix model.PhaseType gen.NpMoments gen.MomentsGen proofs.GenMomentsEquiv.
+Import ListNotations.
+Section C10source.
+  Variable expm : mat (T:=R) -> mat (T:=R).
+  Variables (Ss : list (Q * mat (T:=R))) (Slast : mat (T:=R)) (alpha : vec (T:=R)) (lam : R).
+  Variable self_reward : vec (T:=R).
+  Variables self_start_time self_t_max : Q.
+  Notation raw := (raw_model expm Ss Slast alpha lam).
+
+  Theorem C10_distributions_py_moment_with_end_time_is_the_accumulation_at_that_time : forall k Rs c p st en,
+    length Rs = k -> (st <= 0)%Q ->
+    PhaseTypeDistribution_moment OpsR raw self_reward self_start_time self_t_max k (Some Rs) (Some st) (Some en) c p
+    = nth 0 (PhaseTypeDistribution_accumulate OpsR raw self_reward k [en] (Some Rs) c p) 0%R.
+  Proof. exact (source_moment_is_accumulate_at_end expm Ss Slast alpha lam self_reward self_start_time self_t_max). Qed.
+
+  Theorem C10_distributions_py_moment_over_a_window_is_a_difference : forall k Rs c p st en,
+    length Rs = k -> (0 < st)%Q ->
+    PhaseTypeDistribution_moment OpsR raw self_reward self_start_time self_t_max k (Some Rs) (Some st) (Some en) c p
+    = (nth 1 (PhaseTypeDistribution_accumulate OpsR raw self_reward k [st; en] (Some Rs) c p) 0
+       - nth 0 (PhaseTypeDistribution_accumulate OpsR raw self_reward k [st; en] (Some Rs) c p) 0)%R.
+  Proof. exact (source_moment_window expm Ss Slast alpha lam self_reward self_start_time self_t_max). Qed.
+End C10source.
+Print Assumptions C10_distributions_py_moment_with_end_time_is_the_accumulation_at_that_time.
+Print Assumptions C10_distributions_py_moment_over_a_window_is_a_difference.
